@@ -53,7 +53,6 @@ ArgsT == Choices(CallsT, ArgsTx)
 \* ---- scenario scripts: forced prefixes <<action, process, payload or 0>> of the known races
 \* (used with RecordH = "full"; after the prefix the behaviour continues freely)
 CONSTANT Script
-NoScript == << >>
 \* deposit between the scan and the select (the window): the token must survive
 S1 == << <<"EnterAttach", "w1", 0>>, <<"RdStart", "rd", 0>>, <<"ScanWait", "w1", 0>>, <<"RdRecv", "rd", 111>>, <<"DepNew", "rd", 0>>,
          <<"RdRecv", "rd", 211>>, <<"DepNew", "rd", 0>>, <<"Park", "w1", 0>>, <<"WakeToken", "w1", 0>>, <<"ScanOk", "w1", 0>> >>
@@ -83,11 +82,12 @@ ArgsSx(w) == CASE w = "w1" -> {[cid |-> K1, froms |-> {1, 2}]}
                [] w = "w3" -> {[cid |-> K1, froms |-> {1, 2}]}
 ArgsS == Choices(CallsS, ArgsSx)
 WireS == BagOf(<<Msg(1, K1, 111), Msg(2, K1, 211), Msg(2, K1, 211), Msg(2, K1, 212), Msg(1, K2, 121), Msg(9, K1, 911)>>)
-Scripted ==
-  LET k == Len(h') IN
-  (k <= Len(Script) /\ k > Len(h)) =>
-     /\ h'[k].a = Script[k][1] /\ h'[k].p = Script[k][2]
-     /\ Script[k][3] # 0 => h'[k].m.pay = Script[k][3]
+AllScripts == <<S1, S2, S2b, S3, S4, S5, S6>>
+NoScript == << >>
+Fits(e, x) == e.a = x[1] /\ e.p = x[2] /\ (x[3] # 0 => e.m.pay = x[3])
+\* the history stays compatible with at least one script until that script is exhausted
+Scripted == Len(h') > Len(h) =>
+  \E j \in 1..Len(Script) : LET scr == Script[j] IN \A i \in 1..(IF Len(h') < Len(scr) THEN Len(h') ELSE Len(scr)) : Fits(h'[i], scr[i])
 ScriptNext == Next /\ Scripted
 
 \* behaviours are printed when nothing but stuttering is possible any more
